@@ -76,8 +76,8 @@ def main():
         prev = [x for x in json.load(open(out))["results"] if x["id"] not in {y["id"] for y in results}]
     allr = sorted(prev + results, key=lambda x: x["id"])
     json.dump({"results": allr,
-               "detected": sum(1 for x in allr if x.get("status") != "neutralised" and x.get("checks", {}).get(x["property"], {}).get("detected")),
-               "active": sum(1 for x in allr if x.get("status") != "neutralised"),
+               "detected": sum(1 for x in allr if x.get("status") not in ("neutralised", "out_of_scope") and x.get("checks", {}).get(x["property"], {}).get("detected")),
+               "active": sum(1 for x in allr if x.get("status") not in ("neutralised", "out_of_scope")),
                "total": len(allr)}, open(out, "w"), indent=1)
     return 0
 
